@@ -383,6 +383,14 @@ theorem C01_counterexample :
     ¬ C01_full [] [⟨.span, [115], [97], .info, none, none, none, []⟩] [.new 0 .ctx [], .ent 0, .new 0 .root []] := by
   unfold C01_full; decide
 
+/-- K5: an event whose value set names field `f` twice: natively two visits (1, then 2), through
+    the tunnel one visit (2) — `TracedValues` is an insertion-ordered map. This is the point that
+    the hypothesis `distinctIdx` (inside `wfProg`) excludes. -/
+theorem C01_counterexample_repeated :
+    ¬ C01_full [] [⟨.event, [101], [97], .info, none, none, none, [[102]]⟩]
+      [.evt 0 .ctx [(0, some (.i64 1)), (0, some (.i64 2))]] := by
+  unfold C01_full; decide
+
 /-- Non-vacuity of the hypotheses of `C01_log_simulation` / `C01_partial` (nested and re-entrant
     enters, clone, explicit parent, values of two kinds, an event). -/
 example :
